@@ -89,7 +89,6 @@ def check_c13(ctx, led):
         and items[0][1][0] == 0
         and items[0][1][1] == 1
         and items[1][0] is sre_c.MAX_REPEAT
-        and items[1][1][1] is sre_c.MAXREPEAT
         and len(items[1][1][2]) == 1
         and items[1][1][2][0][0] is sre_c.IN
     ):
@@ -99,6 +98,7 @@ def check_c13(ctx, led):
     if len(gseq) == 1 and gseq[0][0] is sre_c.SUBPATTERN:
         gseq = list(gseq[0][1][3])
     n_min = items[1][1][0]
+    n_max = None if items[1][1][1] is sre_c.MAXREPEAT else items[1][1][1]
     univ = [chr(c) for c in range(32, 127)]
     cls = rx.charset_of(items[1][1][2][0][1], univ + [rx.OTHER])
     flags = getattr(find_regex, "flags", set())
@@ -150,6 +150,21 @@ def check_c13(ctx, led):
         module.where(call),
         "the class must repeat at most %d (shortest valid v2 vector) / %d (shortest v3 body) times at minimum; {%d,} "
         "skips shorter valid vectors" % (len2, len3, n_min),
+    )
+    # (ii-b) a finite upper repetition bound must not cut the longest valid vector short
+    def longest(acc, prefixes):
+        body = sum(len(k) + 1 + max(len(x) for x in (vals or [""])) for k, vals in acc.items()) + len(acc) - 1
+        return body, max([len(p) for p in prefixes] or [0])
+
+    b2, _ = longest(acc2, [""])
+    b3, p3 = longest(acc3, sorted(info3["prefixes"]))
+    led.check(
+        n_max is None or (n_max >= b2 and n_max >= b3),
+        "C13.complete.maxlen",
+        ck_rx,
+        module.where(call),
+        "the class repeats at most %s times, but the longest valid v2 vector has %d characters and the longest v3 body %d "
+        "(after the %d-character prefix): such vectors are cut short and rejected" % (n_max, b2, b3, p3),
     )
     # (iii) every accepted v3 prefix is in the language of the optional group
     gdfa = rx.DFA("<group>", extra_chars="".join(univ), tree=gseq)
